@@ -214,6 +214,8 @@ func idString(id vaa.VAAID) string {
 	return fmt.Sprintf("%d/%s/%d/%d", uint16(id.EmitterChain), hex.EncodeToString(id.EmitterAddress[:]), uint16(id.TargetChain), id.Sequence)
 }
 
+const vBlockDeadline = 15 * time.Second
+
 func be8(x uint64) []byte { b := make([]byte, 8); binary.BigEndian.PutUint64(b, x); return b }
 
 // canonical bytes of outputs, mirrored by WH.lib.ProcWire
@@ -231,16 +233,31 @@ func (dr *vDriver) do(op vOp, f func()) bool {
 	dr.h.Ops = append(dr.h.Ops, op)
 	st := vStep{Outs: []string{}}
 	var eps time.Duration
-	func() {
-		defer func() {
-			if x := recover(); x != nil {
-				st.Panic = fmt.Sprint(x)
-			}
+	// the handler runs on a goroutine of its own under a watchdog: a handler that never returns (the processor is ONE goroutine:
+	// it would stall the whole signing pipeline) is reported, not waited for until the test binary's timeout
+	blocked := false
+	{
+		done := make(chan struct{})
+		var pv string
+		go func() {
+			defer close(done)
+			defer func() {
+				if x := recover(); x != nil {
+					pv = fmt.Sprint(x)
+				}
+			}()
+			t0 := time.Now()
+			f()
+			eps = time.Since(t0)
 		}()
-		t0 := time.Now()
-		f()
-		eps = time.Since(t0)
-	}()
+		select {
+		case <-done:
+			st.Panic = pv
+		case <-time.After(vBlockDeadline):
+			blocked = true
+			st.Panic = fmt.Sprintf("BLOCKED: the %s handler did not return within %v", op.K, vBlockDeadline)
+		}
+	}
 	st.Eps = eps.Milliseconds()
 	var sum uint64
 	add := func(b []byte, s string) {
@@ -331,7 +348,11 @@ drain2:
 	}
 	if st.Panic != "" {
 		add([]byte{6}, "PANIC "+st.Panic)
-		dr.h.Mon = append(dr.h.Mon, "processor panicked: "+st.Panic)
+		if blocked {
+			dr.h.Mon = append(dr.h.Mon, "processor blocked (its single goroutine stalls, nothing is signed or published any more): "+st.Panic)
+		} else {
+			dr.h.Mon = append(dr.h.Mon, "processor panicked: "+st.Panic)
+		}
 	}
 	sort.Strings(st.Outs)
 	st.OutHash = sum
